@@ -344,7 +344,12 @@ func (e *Effects) rootsOf(v ssa.Value, depth int) RootSet {
 	case *ssa.FreeVar:
 		rs.add(Root{Kind: "freevar"})
 	case *ssa.Global:
-		rs.add(Root{Kind: "global", Name: relPkg(x.Pkg.Pkg) + "." + x.Name()})
+		if x.Pkg != nil && IsRepoPkg(x.Pkg.Pkg) {
+			rs.add(Root{Kind: "global", Name: relPkg(x.Pkg.Pkg) + "." + x.Name()})
+		} else {
+			// package-level variable of another module (io.EOF, binary.BigEndian, ...)
+			rs.add(Root{Kind: "extglobal", Name: relPkg(x.Pkg.Pkg) + "." + x.Name()})
+		}
 	case *ssa.Alloc:
 		rs.add(Root{Kind: "fresh", Name: allocID(x)})
 	case *ssa.MakeSlice, *ssa.MakeMap, *ssa.MakeChan:
